@@ -10,7 +10,38 @@ from pathlib import Path
 ROOT = Path(__file__).resolve().parent.parent
 REPO = Path(os.environ.get("VERIF_REPO", "/repo"))
 DEPS = ROOT / ".deps"
-HARNESS_DIR = ROOT / "rust" / "harness"
+
+
+def _harness_dir() -> Path:
+    """Default: /verif/rust/harness (shim manifest compiles /repo's sources). For my own mutation runs against a scratch
+    worktree (VERIF_REPO=<dir>), an alternate build tree under .work/rust-alt/<tag>/ whose shim points at THAT worktree,
+    so that Rust changes can be judged without touching /repo (and several of them in parallel)."""
+    base = ROOT / "rust" / "harness"
+    if str(REPO) == "/repo":
+        return base
+    import hashlib
+    import shutil
+    tag = hashlib.sha1(str(REPO).encode()).hexdigest()[:12]
+    d = ROOT / ".work" / "rust-alt" / tag
+    if not (d / "harness" / "Cargo.toml").exists():
+        (d / "core-shim").mkdir(parents=True, exist_ok=True)
+        (d / "harness" / ".cargo").mkdir(parents=True, exist_ok=True)
+        shim = (ROOT / "rust" / "core-shim" / "Cargo.toml").read_text()
+        (d / "core-shim" / "Cargo.toml").write_text(shim.replace("/repo/sc62015/core/src/lib.rs",
+                                                                 str(REPO / "sc62015/core/src/lib.rs")))
+        for name in ("vendor", "zipshim"):
+            if not (d / name).exists():
+                os.symlink(ROOT / "rust" / name, d / name)
+        if not (d / "harness" / "src").exists():
+            os.symlink(base / "src", d / "harness" / "src")
+        shutil.copy(base / ".cargo" / "config.toml", d / "harness" / ".cargo" / "config.toml")
+        shutil.copy(base / "Cargo.toml", d / "harness" / "Cargo.toml")
+        if (base / "Cargo.lock").exists():
+            shutil.copy(base / "Cargo.lock", d / "harness" / "Cargo.lock")
+    return d / "harness"
+
+
+HARNESS_DIR = _harness_dir()
 VRT = HARNESS_DIR / "target" / "debug" / "vrt"
 WHEELS = "/opt/veriftools/wheels"
 
@@ -32,7 +63,7 @@ def ensure_deps() -> None:
 
 def ensure_rust() -> Path:
     """cargo build (mtime based: edits under /repo/sc62015/core/src are picked up)."""
-    with open(ROOT / ".rust.lock", "w") as lk:
+    with open(HARNESS_DIR.parent / ".rust.lock" if str(REPO) != "/repo" else ROOT / ".rust.lock", "w") as lk:
         fcntl.flock(lk, fcntl.LOCK_EX)
         env = dict(os.environ)
         env["CARGO_NET_OFFLINE"] = "true"
